@@ -1714,7 +1714,12 @@ func (h *Handler) serveStatus(w http.ResponseWriter, r *http.Request) {
 	h.writeHeader(w, http.StatusNoContent)
 }
 
-func (h *Handler) failPoint(w http.ResponseWriter, r *http.Request) {
+func (h *Handler) failPoint(w http.ResponseWriter, r *http.Request, user meta2.User) {
+	// Failpoints control the server: administrators only.
+	if ok := h.checkAuth(w, r, user); !ok {
+		return
+	}
+
 	point := r.URL.Query().Get("point")
 	flag := r.URL.Query().Get("flag")
 	var err error
